@@ -226,6 +226,124 @@ func facts(root string) {
 	}
 	consts("loaders/document_loader.go", "maxAlternateHops")
 	consts("verifiable/status_direct.go", "limitReaderBytes")
+	// --- verifiable/status_direct.go: the comparisons of the response's status code with integer literals, in source order
+	if f := parse("verifiable/status_direct.go"); f != nil {
+		conds := [][2]string{}
+		ast.Inspect(f, func(n ast.Node) bool {
+			if b, ok := n.(*ast.BinaryExpr); ok {
+				if sel, ok := b.X.(*ast.SelectorExpr); ok && sel.Sel.Name == "StatusCode" {
+					if v, ok := intExpr(b.Y); ok {
+						conds = append(conds, [2]string{b.Op.String(), strconv.Itoa(v)})
+					} else {
+						conds = append(conds, [2]string{b.Op.String(), "expr"})
+					}
+				} else if sel, ok := b.Y.(*ast.SelectorExpr); ok && sel.Sel.Name == "StatusCode" {
+					conds = append(conds, [2]string{"flipped " + b.Op.String(), "expr"})
+				}
+			}
+			return true
+		})
+		out["statusCodeConds"] = conds
+	}
+	// --- verifiable/credential.go: getIden3StateInfo2023FromDIDDocument - the literal the entry's type is compared with, and
+	// whether the loop stops at the first match (a break or return inside the matching branch)
+	if f := parse("verifiable/credential.go"); f != nil {
+		for _, d := range f.Decls {
+			fd, ok := d.(*ast.FuncDecl)
+			if !ok || fd.Name.Name != "getIden3StateInfo2023FromDIDDocument" || fd.Body == nil {
+				continue
+			}
+			types := []string{}
+			stops := false
+			ast.Inspect(fd.Body, func(n ast.Node) bool {
+				if ifs, ok := n.(*ast.IfStmt); ok {
+					if b, ok := ifs.Cond.(*ast.BinaryExpr); ok {
+						if sel, ok := b.X.(*ast.SelectorExpr); ok && sel.Sel.Name == "Type" {
+							if s, ok := strLit(b.Y); ok && b.Op == token.EQL {
+								types = append(types, s)
+								ast.Inspect(ifs.Body, func(m ast.Node) bool {
+									switch y := m.(type) {
+									case *ast.BranchStmt:
+										if y.Tok == token.BREAK {
+											stops = true
+										}
+									case *ast.ReturnStmt:
+										stops = true
+									}
+									return true
+								})
+							} else {
+								types = append(types, "expr:"+b.Op.String())
+							}
+						}
+					}
+				}
+				return true
+			})
+			out["stateInfoTypes"] = types
+			out["stateInfoStopsAtFirst"] = stops
+		}
+	}
+	// --- verifiable/resolver.go: how the methods of CredentialStatusResolverRegistry use their type parameter: every index into
+	// (or delete from) the resolvers map must be by the method's own first parameter, as it was given; and which package-level
+	// names a method mentions
+	if f := parse("verifiable/resolver.go"); f != nil {
+		uses := [][2]string{}
+		for _, d := range f.Decls {
+			fd, ok := d.(*ast.FuncDecl)
+			if !ok || fd.Recv == nil || fd.Body == nil || len(fd.Recv.List) != 1 {
+				continue
+			}
+			rt := fd.Recv.List[0].Type
+			if st, ok := rt.(*ast.StarExpr); ok {
+				rt = st.X
+			}
+			if id, ok := rt.(*ast.Ident); !ok || id.Name != "CredentialStatusResolverRegistry" {
+				continue
+			}
+			param := ""
+			if fd.Type.Params != nil && len(fd.Type.Params.List) > 0 && len(fd.Type.Params.List[0].Names) > 0 {
+				param = fd.Type.Params.List[0].Names[0].Name
+			}
+			use := "none"
+			note := func(e ast.Expr) {
+				if id, ok := e.(*ast.Ident); ok && id.Name == param && param != "" {
+					if use == "none" {
+						use = "param"
+					}
+				} else {
+					use = "other"
+				}
+			}
+			ast.Inspect(fd.Body, func(n ast.Node) bool {
+				switch x := n.(type) {
+				case *ast.IndexExpr:
+					if sel, ok := x.X.(*ast.SelectorExpr); ok && sel.Sel.Name == "resolvers" {
+						note(x.Index)
+					}
+				case *ast.CallExpr:
+					if id, ok := x.Fun.(*ast.Ident); ok && id.Name == "delete" && len(x.Args) == 2 {
+						note(x.Args[1])
+					}
+				case *ast.AssignStmt:
+					// the parameter must reach the map as it was given
+					for _, l := range x.Lhs {
+						if id, ok := l.(*ast.Ident); ok && id.Name == param && param != "" {
+							use = "other"
+						}
+					}
+				case *ast.Ident:
+					if x.Name == "DefaultCredentialStatusResolverRegistry" {
+						use = "other"
+					}
+				}
+				return true
+			})
+			uses = append(uses, [2]string{fd.Name.Name, use})
+		}
+		sort.Slice(uses, func(i, j int) bool { return uses[i][0] < uses[j][0] })
+		out["registryKeyUse"] = uses
+	}
 	// --- merklize/*.go: depth of every tree created, safe-mode value of every Merklizer literal
 	depths, safes := map[int]bool{}, map[string]bool{}
 	files, _ := filepath.Glob(filepath.Join(root, "merklize", "*.go"))
